@@ -47,6 +47,11 @@ func runC03(c *Ctx) {
 	c.MinInstances("C03.I1 transaction-id-from-content", c.borrowRule(runC08, "C08", "I1 id-", "C03.I1 transaction-id-from-content", func(k string) bool {
 		return strings.Contains(k, "blockchain.(*Transaction)") || strings.Contains(k, "blockchain.NewTransaction")
 	}), 1)
+	// a block is executed to the end only while every transaction's execution result is one the
+	// generator would have kept in a block (an INVALID result rejects the block) — the mirror rule of C15.R4
+	c.MinInstances("C03.X execution-verdict-checked", c.borrowRule(runC15, "C15", "R4 executer-mirror", "C03.X execution-verdict-checked", func(k string) bool {
+		return k == "execution verdict" || k == "verification verdict"
+	}), 2)
 	vf := factsOf(verify)
 
 	// ---- V: reject-edge table in verifyBlock
